@@ -15,6 +15,10 @@ Case groups (every case is JSON and replayable through GROUPS[case["k"]]):
   array    GenomicArray from_dict/to_dict/[name]/get_data, Genome.get_track / Geometry.get_track from a bedgraph
   spill    an interval that leaves its chromosome: must be rejected or must not change any other chromosome
   fasta    Genome.from_file(.fa / chrom.sizes, default filter) + read_sequence()[stranded intervals]
+  many     genomes with more than 256 contigs (and > 65536 for GlobalOffset alone): entries on the contigs around every
+           multiple of 256 must be attributed to their own contig by every operation above
+  hist     histories on stranded intervals: sorted / indexing / clip / extended_to_size / merged / concatenate / windows
+           around the 5' ends (1..2 steps), then a strand-aware step on the result == that step on the rows by hand
 """
 import itertools
 import os
@@ -64,12 +68,20 @@ def vals_of(pattern, genome_inc):
     return out
 
 
+_LABELS = {}
+
+
 def names(x):
     import numpy as np
     from bionumpy.encoded_array import EncodedArray
     enc = getattr(x, "encoding", None)
     if isinstance(x, EncodedArray) and type(enc).__name__ == "StringEncoding":
-        labels = enc.get_labels()
+        hit = _LABELS.get(id(enc))
+        if hit is None or hit[0] is not enc:       # decoding all labels of a many-contig genome on every call is slow
+            if len(_LABELS) > 16:
+                _LABELS.clear()
+            hit = _LABELS[id(enc)] = (enc, enc.get_labels())
+        labels = hit[1]
         return [labels[int(i)] for i in np.atleast_1d(x.raw())]
     r = x.tolist()
     return r if isinstance(r, list) else [r]
@@ -811,8 +823,537 @@ def chk_fasta(col, case):
                 pass
 
 
+# ----------------------------------------------------------------------------------------------- group: many
+# genomes with more than 256 (and, for the coordinate conversion alone, more than 65536) sequence names: the contig
+# number of an entry no longer fits in one (two) byte(s); every operation must still attribute an entry on contig
+# number k to contig k - not to k-256 / k-65536 - and use k's own offset and size
+
+MANY = "many-contigs:"
+
+
+def many_genome(case):
+    n = int(case["n"])
+    base, mul, mod = case["size_rule"]
+    ue = int(case.get("underscore_every", 0))
+    out = []
+    for i in range(n):
+        name = "%s%d" % (case["prefix"], i + 1)          # scf1, scf10, scf100 ...: names that are prefixes of others
+        if ue and i % ue == ue - 1:
+            name += "_alt"
+        out.append((name, base + (i * mul) % mod))
+    return out
+
+
+def seq_many(ci, n):
+    """as seq_of, but the sequences of contigs k, k-256 and k-65536 differ in their first base"""
+    return seq_of(ci + ci // 256 + ci // 65536, n)
+
+
+def _many_offset(col, descr, case, go, genome_inc, off, sizes, probes):
+    import numpy as np
+    total = sum(s for _, s in genome_inc)
+    valid = [(n, x) for n in probes for x in range(sizes[n])]
+    exp = [off[n] + x for n, x in valid]
+    col.case({"c": "from_local", **descr}, contract="from_local_coordinates (many contigs)")
+    got = col.guarded(lambda: np.asarray(go.from_local_coordinates([n for n, _ in valid], np.array([x for _, x in valid]))).tolist(),
+                      MANY + "from_local_coordinates", case)
+    if got is not None:
+        col.check(got == exp, MANY + "from_local_coordinates:not-own-offset-plus-local", case, "positions %r got %r expected %r" % (valid, got, exp))
+    col.case({"c": "to_local", **descr}, contract="to_local_coordinates (many contigs)")
+    r = col.guarded(lambda: go.to_local_coordinates(np.array(exp)), MANY + "to_local_coordinates", case)
+    if r is not None:
+        got = list(zip(names(r[0]), np.asarray(r[1]).tolist()))
+        col.check(got == valid, MANY + "to_local_coordinates:not-inverse", case, "global %r got %r expected %r" % (exp, got, valid))
+    if total <= 6000 and case.get("whole"):
+        col.case({"c": "to_local_all", **descr}, contract="to_local_coordinates (many contigs)")
+        r = col.guarded(lambda: go.to_local_coordinates(np.arange(total)), MANY + "to_local_coordinates", case)
+        if r is not None:
+            got = list(zip(names(r[0]), np.asarray(r[1]).tolist()))
+            allv = [(n, x) for n, s in genome_inc for x in range(s)]
+            col.check(got == allv, MANY + "to_local_coordinates:not-inverse", case, "all %d positions: first difference at %r" % (
+                total, next((i for i, (a, b) in enumerate(zip(got, allv)) if a != b), None)))
+        col.case({"c": "from_local_all", **descr}, contract="from_local_coordinates (many contigs)")
+        allv = [(n, x) for n, s in genome_inc for x in range(s)]
+        got = col.guarded(lambda: np.asarray(go.from_local_coordinates([n for n, _ in allv], np.array([x for _, x in allv]))).tolist(),
+                          MANY + "from_local_coordinates", case)
+        if got is not None:
+            col.check(got == list(range(total)), MANY + "from_local_coordinates:not-bijective", case, "first difference at %r" % (
+                next((i for i, (a, b) in enumerate(zip(got, range(total))) if a != b), None),))
+    for n in probes:
+        col.case({"c": "from_local_oob", "n": n, **descr}, contract="from_local_coordinates rejects (many contigs)")
+        try:
+            r = go.from_local_coordinates([n], np.array([sizes[n]]))
+            col.fail(MANY + "from_local_coordinates:position-past-contig-end-accepted", case, "%s:%d -> %r" % (n, sizes[n], r))
+        except Exception:
+            pass
+    all_iv = [(n, a, b) for n in probes for a in range(sizes[n]) for b in range(a + 1, sizes[n] + 1)]
+    col.case({"c": "interval_roundtrip", **descr}, contract="from_local_interval/to_local_interval (many contigs)")
+    gi = col.guarded(lambda: go.from_local_interval(make_intervals(all_iv)), MANY + "from_local_interval", case)
+    if gi is not None:
+        got = list(zip(np.asarray(gi.start).tolist(), np.asarray(gi.stop).tolist()))
+        exp = [(off[n] + a, off[n] + b) for n, a, b in all_iv]
+        col.check(got == exp, MANY + "from_local_interval:not-own-offset-plus-local", case, "got %r expected %r" % (got, exp))
+        back = col.guarded(lambda: ivs(go.to_local_interval(gi)), MANY + "to_local_interval", case)
+        if back is not None:
+            col.check(back == all_iv, MANY + "to_local_interval:not-inverse", case, "got %r expected %r" % (back, all_iv))
+    col.case({"c": "start_ends_clip", **descr}, contract="start_ends_from_intervals(do_clip) (many contigs)")
+    over = [(n, a, b + 7) for n, a, b in all_iv]
+    r = col.guarded(lambda: go.start_ends_from_intervals(make_intervals(over), do_clip=True), MANY + "start_ends_from_intervals:clip", case)
+    if r is not None:
+        got = list(zip(np.asarray(r[0]).tolist(), np.asarray(r[1]).tolist()))
+        exp = [(off[n] + a, off[n] + min(b, sizes[n])) for n, a, b in over]
+        col.check(got == exp, MANY + "start_ends_from_intervals:clip-not-at-own-contig-end", case, "got %r expected %r" % (got, exp))
+    for n in probes:
+        s = sizes[n]
+        bad = (n, s - 1, s + 1)
+        col.case({"c": "interval_oob", "iv": bad, **descr}, contract="from_local_interval rejects (many contigs)")
+        try:
+            r = go.from_local_interval(make_intervals([bad]))
+            col.fail(MANY + "from_local_interval:interval-past-contig-end-accepted", case, "%r -> %r,%r" % (bad, r.start, r.stop))
+        except BaseException as e:
+            if not isinstance(e, Exception):
+                raise
+
+
+def chk_many(col, case):
+    import numpy as np
+    from bionumpy.datatypes import BedGraph, LocationEntry
+    from bionumpy.genomic_data.geometry import Geometry
+    from bionumpy.genomic_data.global_offset import GlobalOffset
+    from bionumpy.genomic_data import GenomicSequence
+    genome = many_genome(case)
+    filt = case["filter"]
+    inc = R.included_names(genome, filt)
+    incset = set(inc)
+    genome_inc = [(n, s) for n, s in genome if n in incset]
+    sizes = dict(genome)
+    all_names = [n for n, _ in genome]
+    order = {n: i for i, n in enumerate(inc)}
+    off = dict(zip(inc, R.offsets([s for _, s in genome_inc])))
+    picks = [(int(i), int(s), int(e), st) for i, s, e, st in case["picks"]]
+    entries = [(all_names[i], s, e) for i, s, e, _ in picks]
+    strands = "".join(p[3] for p in picks)
+    kept = [e for e in entries if e[0] in incset]
+    kept_strands = "".join(st for e, st in zip(entries, strands) if e[0] in incset)
+    probes = []
+    for c, _, _ in kept:
+        if c not in probes:
+            probes.append(c)
+
+    # coordinate conversion built from the {name: size} dict alone (cheap for any number of contigs)
+    go2 = None
+    if case.get("whole") or case.get("level") == "offset":
+        go2 = col.guarded(lambda: GlobalOffset({n: s for n, s in genome_inc}), MANY + "GlobalOffset(dict)", case)
+    if go2 is not None:
+        _many_offset(col, {"via": "dict", **case}, case, go2, genome_inc, off, sizes, probes)
+    if case.get("level") == "offset":
+        return
+
+    g = col.guarded(lambda: make_genome(genome, filt), MANY + "Genome.from_dict", case)
+    if g is None:
+        return
+    ctx = g.get_genome_context()
+    total = sum(s for _, s in genome_inc)
+    col.case({"c": "size", **case}, contract="genome size (many contigs)")
+    col.check(int(g.size) == total, MANY + "size:not-sum-of-included", case, "got %r expected %r" % (g.size, total))
+    _many_offset(col, {"via": "genome", **case}, case, ctx.global_offset, genome_inc, off, sizes, probes)
+
+    per = {}
+    for c, s, e in kept:
+        per.setdefault(c, []).append((s, e))
+    values = {n: [1000 * (ci + 1) + i for i in range(s)] for ci, (n, s) in enumerate(genome_inc)}
+
+    def diff(got, exp):
+        bad = [n for n in exp if got.get(n) != exp[n]] + [n for n in got if n not in exp]
+        return "contigs that differ: %r; got %r expected %r" % (bad[:6], {n: got.get(n) for n in bad[:6]}, {n: exp.get(n) for n in bad[:6]})
+
+    gi = col.guarded(lambda: g.get_intervals(make_intervals(entries)), MANY + "get_intervals", case)
+    gs = col.guarded(lambda: g.get_intervals(make_intervals(entries, strands), stranded=True), MANY + "get_intervals:stranded", case)
+    if gi is None or gs is None:
+        return
+    col.case({"c": "kept", **case}, contract="get_intervals (many contigs)")
+    got = col.guarded(lambda: ivs(gi), MANY + "get_intervals:read-back", case)
+    if got is not None:
+        col.check(got == kept, MANY + "get_intervals:entries-not-on-their-own-contig", case, "got %r expected %r" % (got, kept))
+
+    exp_mask = {n: R.mask(per.get(n, []), s) for n, s in genome_inc}
+    exp_pile = {n: R.pileup(per.get(n, []), s) for n, s in genome_inc}
+    col.case({"c": "mask", **case}, contract="get_mask (many contigs)")
+    m = col.guarded(lambda: gi.get_mask(), MANY + "get_mask", case)
+    if m is not None:
+        got = col.guarded(lambda: dict_py(m.to_dict()), MANY + "get_mask:to_dict", case)
+        if got is not None:
+            col.check(got == exp_mask, MANY + "get_mask:entry-attributed-to-other-contig", case, diff(got, exp_mask))
+        got = None
+        if case.get("whole"):
+            col.case({"c": "mask_data", **case}, contract="mask.get_data (many contigs)")
+            got = col.guarded(lambda: ivs(m.get_data()), MANY + "mask.get_data", case)
+        if got is not None:
+            exp = [(n, s, e) for n in inc if n in per for s, e in R.merge(per[n], 0)]
+            col.check(got == exp, MANY + "mask.get_data:not-per-contig-runs", case, "got %r expected %r" % (got, exp))
+    col.case({"c": "pileup", **case}, contract="get_pileup (many contigs)")
+    got = col.guarded(lambda: dict_py(gi.get_pileup().to_dict()), MANY + "get_pileup", case)
+    if got is not None:
+        col.check(got == exp_pile, MANY + "get_pileup:entry-attributed-to-other-contig", case, diff(got, exp_pile))
+
+    for pname, perm in perms(len(entries), False):
+        src = [entries[i] for i in perm]
+        col.case({"c": "sorted", "perm": pname, **case}, contract="sorted (many contigs)")
+        got = col.guarded(lambda: ivs(g.get_intervals(make_intervals(src)).sorted()), MANY + "sorted", case)
+        if got is not None:
+            col.check(sorted_ok(got, kept, order), MANY + "sorted:not-genome-order", case, "input %r got %r" % (src, got))
+
+    if kept and not adjacency(kept, genome_inc, 0):
+        # merged(0) needs entries sorted in genome order; entries touching across a contig boundary are the known
+        # defect class of the small-genome cases and are left to them
+        sk = sorted(kept, key=lambda e: (order[e[0]], e[1], e[2]))
+        col.case({"c": "merged", **case}, contract="merged (many contigs)")
+        got = col.guarded(lambda: ivs(g.get_intervals(make_intervals(sk)).merged(0)), MANY + "merged:d=0", case)
+        if got is not None:
+            exp = [(n, s, e) for n in inc if n in per for s, e in R.merge(per[n], 0)]
+            col.check(got == exp, MANY + "merged:d=0:wrong-per-contig-result", case, "got %r expected %r" % (got, exp))
+
+    geo = None
+    if all("_" not in c for c, _, _ in entries):
+        geo = col.guarded(lambda: Geometry({n: s for n, s in genome}), MANY + "Geometry", case)
+    for dl, dr in ((0, 0), (0, 7), (2, 2)):
+        src = [(c, s - dl, e + dr) for c, s, e in entries]
+        exp = [(c,) + R.clip((s - dl, e + dr), sizes[c]) for c, s, e in kept]
+        col.case({"c": "clip", "dl": dl, "dr": dr, **case}, contract="clip (many contigs)")
+        got = col.guarded(lambda: ivs(g.get_intervals(make_intervals(src)).clip()), MANY + "clip", case)
+        if got is not None:
+            col.check(got == exp, MANY + "clip:not-clipped-to-own-contig", case, "input %r got %r expected %r" % (src, got, exp))
+        if geo is not None:
+            col.case({"c": "geo_clip", "dl": dl, "dr": dr, **case}, contract="Geometry.clip (many contigs)")
+            got = col.guarded(lambda: ivs(geo.clip(make_intervals(src))), MANY + "Geometry.clip", case)
+            if got is not None:
+                exp2 = [(c,) + R.clip((s - dl, e + dr), sizes[c]) for c, s, e in entries]
+                col.check(got == exp2, MANY + "Geometry.clip:not-clipped-to-own-contig", case, "input %r got %r expected %r" % (src, got, exp2))
+    if geo is not None and case.get("whole"):
+        gnames = [n for n, _ in genome if "_" not in n]
+        col.case({"c": "geo_mask", **case}, contract="Geometry.get_mask (many contigs)")
+        got = col.guarded(lambda: dict_py(geo.get_mask(make_intervals(entries)).to_dict()), MANY + "Geometry.get_mask", case)
+        if got is not None:
+            gper = {}
+            for c, s, e in entries:
+                gper.setdefault(c, []).append((s, e))
+            exp = {n: R.mask(gper.get(n, []), sizes[n]) for n in gnames}
+            col.check(got == exp, MANY + "Geometry.get_mask:entry-attributed-to-other-contig", case, diff(got, exp))
+
+    for L in (1, 3, 8):
+        exp = [(c,) + R.extend_to_size((s, e), st, L, sizes[c]) for (c, s, e), st in zip(kept, kept_strands)]
+        col.case({"c": "extend", "L": L, **case}, contract="extended_to_size (many contigs)")
+        got = col.guarded(lambda: ivs(gs.extended_to_size(L)), MANY + "extended_to_size", case)
+        if got is not None:
+            col.check(got == exp, MANY + "extended_to_size:not-limited-by-own-contig", case, "L=%d strands %s got %r expected %r" % (L, kept_strands, got, exp))
+
+    for where in ("start", "stop"):
+        col.case({"c": "location", "where": where, **case}, contract="get_location (many contigs)")
+        got = col.guarded(lambda: (lambda loc: list(zip(names(loc.chromosome), np.asarray(loc.position).tolist())))(gs.get_location(where)),
+                          MANY + "get_location:stranded:" + where, case)
+        if got is not None:
+            exp = [(c, R.location((s, e), st, where)[0]) for (c, s, e), st in zip(kept, kept_strands)]
+            col.check(got == exp, MANY + "get_location:stranded:%s:wrong-position" % where, case, "got %r expected %r" % (got, exp))
+
+    # locations: last base of every entry; windows must be cut at the entry's own contig end
+    locs = [(c, e - 1) for c, s, e in entries]
+    klocs = [l for l in locs if l[0] in incset]
+    gl = col.guarded(lambda: g.get_locations(LocationEntry([c for c, _ in locs], [p for _, p in locs])), MANY + "get_locations", case)
+    if gl is not None and locs:
+        for f in (0, 2, 9):
+            col.case({"c": "windows_flank", "f": f, **case}, contract="get_windows(flank) (many contigs)")
+            got = col.guarded(lambda: ivs(gl.get_windows(flank=f)), MANY + "get_windows:flank", case)
+            if got is not None:
+                exp = [(c,) + R.windows_flank(p, f, sizes[c])[0] for c, p in klocs]
+                col.check(got == exp, MANY + "get_windows:flank:not-cut-at-own-contig-end", case, "flank=%d locations %r got %r expected %r" % (f, klocs, got, exp))
+        col.case({"c": "loc_sorted", **case}, contract="GenomicLocation.sorted (many contigs)")
+        got = col.guarded(lambda: (lambda s: list(zip(names(s.chromosome), np.asarray(s.position).tolist())))(
+            g.get_locations(LocationEntry([c for c, _ in locs[::-1]], [p for _, p in locs[::-1]])).sorted()), MANY + "locations.sorted", case)
+        if got is not None:
+            keys = [(order[c], p) for c, p in got]
+            col.check(keys == sorted(keys) and sorted(got) == sorted(klocs), MANY + "locations.sorted:not-genome-order", case, "got %r" % (got,))
+
+    ga = col.guarded(lambda: make_array(genome_inc, values, ctx), MANY + "GenomicArray.from_dict", case)
+    if ga is not None:
+        col.case({"c": "extract_unstranded", **case}, contract="GenomicArray[intervals] (many contigs)")
+        got = col.guarded(lambda: rows(ga[gi]), MANY + "GenomicArray[intervals]:unstranded", case)
+        if got is not None:
+            exp = [values[c][s:e] for c, s, e in kept]
+            col.check(got == exp, MANY + "GenomicArray[intervals]:unstranded:values-of-other-contig", case, "intervals %r got %r expected %r" % (kept, got, exp))
+        col.case({"c": "extract_stranded", **case}, contract="GenomicArray[stranded intervals] (many contigs)")
+        got = col.guarded(lambda: rows(ga[gs]), MANY + "GenomicArray[intervals]:stranded", case)
+        if got is not None:
+            exp = [values[c][s:e] if st == "+" else values[c][s:e][::-1] for (c, s, e), st in zip(kept, kept_strands)]
+            col.check(got == exp, MANY + "GenomicArray[intervals]:stranded:values-of-other-contig", case, "intervals %r got %r expected %r" % (kept, got, exp))
+        if m is not None:
+            col.case({"c": "array_by_mask", **case}, contract="GenomicArray[mask] (many contigs)")
+            got = col.guarded(lambda: np.asarray(ga[m]).tolist(), MANY + "GenomicArray[mask]", case)
+            if got is not None:
+                exp = [v for n in inc if n in per for v, b in zip(values[n], exp_mask[n]) if b]
+                col.check(got == exp, MANY + "GenomicArray[mask]:wrong-values", case, "got %r expected %r" % (got, exp))
+        if gl is not None and locs:
+            col.case({"c": "extract_locations", **case}, contract="GenomicArray.extract_locations (many contigs)")
+            got = col.guarded(lambda: np.asarray(ga.extract_locations(gl)).tolist(), MANY + "extract_locations", case)
+            if got is not None:
+                exp = [values[c][p] for c, p in klocs]
+                col.check(got == exp, MANY + "extract_locations:values-of-other-contig", case, "got %r expected %r" % (got, exp))
+        for n in probes:
+            col.case({"c": "getitem", "n": n, **case}, contract="GenomicArray[name] (many contigs)")
+            got = col.guarded(lambda: np.asarray(ga[n].to_array()).tolist(), MANY + "GenomicArray[name]", case)
+            if got is not None:
+                col.check(got == values[n], MANY + "GenomicArray[name]:values-of-other-contig", case, "%s got %r expected %r" % (n, got, values[n]))
+        if case.get("whole"):
+            col.case({"c": "to_dict", **case}, contract="GenomicArray.to_dict (many contigs)")
+            got = col.guarded(lambda: dict_py(ga.to_dict()), MANY + "GenomicArray.to_dict", case)
+            if got is not None:
+                col.check(got == values, MANY + "GenomicArray.to_dict:wrong-per-contig-values", case, diff(got, values))
+
+    if case.get("whole"):
+        # bedgraph with one value per contig (its number), every contig covered -> track
+        bed = [(n, 0, s, ci + 1) for ci, (n, s) in enumerate(genome_inc)]
+        col.case({"c": "get_track", **case}, contract="Genome.get_track (many contigs)")
+        tr = col.guarded(lambda: g.get_track(BedGraph([b[0] for b in bed], [b[1] for b in bed], [b[2] for b in bed], [b[3] for b in bed])),
+                         MANY + "Genome.get_track", case)
+        if tr is not None:
+            got = col.guarded(lambda: dict_py(tr.to_dict()), MANY + "Genome.get_track:to_dict", case)
+            exp = {n: [ci + 1] * s for ci, (n, s) in enumerate(genome_inc)}
+            if got is not None:
+                col.check(got == exp, MANY + "Genome.get_track:wrong-per-contig-values", case, diff(got, exp))
+            col.case({"c": "track_extract", **case}, contract="track[intervals] (many contigs)")
+            got = col.guarded(lambda: rows(tr[gi]), MANY + "track[intervals]", case)
+            if got is not None:
+                exp = [[order[c] + 1] * (e - s) for c, s, e in kept]
+                col.check(got == exp, MANY + "track[intervals]:values-of-other-contig", case, "intervals %r got %r expected %r" % (kept, got, exp))
+
+    seqs = {n: seq_many(i, s) for i, (n, s) in enumerate(genome)}
+    sq = col.guarded(lambda: GenomicSequence.from_dict(seqs), MANY + "GenomicSequence.from_dict", case)
+    if sq is not None and kept and not seq_q(kept):
+        col.case({"c": "seq_stranded", **case}, contract="GenomicSequence[stranded intervals] (many contigs)")
+        got = col.guarded(lambda: [str(x).upper() for x in sq[gs].tolist()], MANY + "GenomicSequence[intervals]:stranded", case)
+        if got is not None:
+            exp = [seqs[c][s:e] if st == "+" else R.revcomp(seqs[c][s:e]) for (c, s, e), st in zip(kept, kept_strands)]
+            col.check(got == exp, MANY + "GenomicSequence[intervals]:stranded:sequence-of-other-contig", case, "intervals %r got %r expected %r" % (kept, got, exp))
+
+
+# ----------------------------------------------------------------------------------------------- group: hist
+# histories on STRANDED in-memory intervals: a re-ordering / re-shaping step (sorted, indexing, clip, extended_to_size,
+# merged, concatenate, windows around the 5' ends), then a strand-aware step on the RESULT (array values reversed and
+# sequence reverse-complemented under '-' rows, get_location('start'/'stop')).  Oracle: the rows (contig, start, stop,
+# strand) transformed by hand, then the single-contig strand-aware step on those rows.
+
+HIST = "history:"
+OPNAME = {"sorted": "sorted", "perm": "getitem", "mask": "getitem", "slice": "getitem", "clip": "clip",
+          "extend": "extended_to_size", "merged": "merged", "concat": "concatenate", "windows": "get_location.get_windows"}
+
+
+def hist_mask(op, rws):
+    if op[1] == "even":
+        return [i % 2 == 0 for i in range(len(rws))]
+    if op[1] == "odd":
+        return [i % 2 == 1 for i in range(len(rws))]
+    return [r[3] == "-" for r in rws]          # "minus"
+
+
+def hist_perm(op, n):
+    return dict(perms(n, False)).get(op[1], list(range(n)))
+
+
+def hist_applicable(op, rws, stranded, sizes, order):
+    inb = all(0 <= s < e <= sizes[c] for c, s, e, _ in rws)
+    if not rws:
+        return False
+    if op[0] in ("extend", "windows"):
+        return stranded and inb
+    if op[0] == "merged":
+        keys = [(order[c], s) for c, s, e, _ in rws]
+        return inb and keys == sorted(keys)
+    if op[0] == "mask":
+        return any(hist_mask(op, rws))
+    if op[0] == "slice":
+        return len(rws) > 1
+    return True
+
+
+def hist_model(op, rws, stranded, sizes, order):
+    """the rows after the step, by hand; None for 'sorted' (any valid genome order of the same rows is accepted)"""
+    k = op[0]
+    if k == "sorted":
+        return None, stranded
+    if k == "perm":
+        return [rws[i] for i in hist_perm(op, len(rws))], stranded
+    if k == "mask":
+        return [r for r, b in zip(rws, hist_mask(op, rws)) if b], stranded
+    if k == "slice":
+        return rws[1:], stranded
+    if k == "clip":
+        return [(c,) + R.clip((s, e), sizes[c]) + (st,) for c, s, e, st in rws], stranded
+    if k == "extend":
+        return [(c,) + R.extend_to_size((s, e), st, op[1], sizes[c]) + (st,) for c, s, e, st in rws], stranded
+    if k == "concat":
+        return rws + rws, stranded
+    if k == "windows":
+        out = []
+        for c, s, e, st in rws:
+            p = R.location((s, e), st, "start")[0]
+            out.append((c,) + R.windows_flank(p, op[1], sizes[c])[0] + (st,))
+        return out, stranded
+    if k == "merged":
+        out = []
+        for n in sorted({c for c, _, _, _ in rws}, key=lambda c: order[c]):
+            out += [(n, s, e, None) for s, e in R.merge([(s, e) for c, s, e, _ in rws if c == n], 0)]
+        return out, False
+    raise ValueError(op)
+
+
+def hist_do(op, x, rws):
+    import numpy as np
+    k = op[0]
+    if k == "sorted":
+        return x.sorted()
+    if k == "perm":
+        return x[np.array(hist_perm(op, len(rws)), dtype=int)]
+    if k == "mask":
+        return x[np.array(hist_mask(op, rws), dtype=bool)]
+    if k == "slice":
+        return x[1:]
+    if k == "clip":
+        return x.clip()
+    if k == "extend":
+        return x.extended_to_size(op[1])
+    if k == "concat":
+        return np.concatenate([x, x])
+    if k == "windows":
+        return x.get_location("start").get_windows(flank=op[1])
+    if k == "merged":
+        return x.merged(0)
+    raise ValueError(op)
+
+
+def hist_step(col, case, env, state, op, path):
+    """apply one step to (object, rows, stranded); evaluate the contracts on the result; returns the new state or None"""
+    import numpy as np
+    x, rws, stranded = state
+    sizes, order, values, seqs, ga, sq, genome_inc = env
+    if not hist_applicable(op, rws, stranded, sizes, order):
+        return None
+    name = OPNAME[op[0]]
+    path = path + [op]
+    descr = {"c": "hist", "path": path, **{k: v for k, v in case.items() if k not in ("first", "second")}}
+    if op[0] == "merged" and adjacency([r[:3] for r in rws], genome_inc, 0):
+        return None        # rows touching across a chromosome boundary: the known merged(0) class of the 'sets' group
+    y = col.guarded(lambda: hist_do(op, x, rws), HIST + name, case)
+    if y is None:
+        return None
+    exp, exp_stranded = hist_model(op, rws, stranded, sizes, order)
+
+    # 1. the rows of the result
+    col.case({"o": "rows", **descr}, contract="history: rows after " + name)
+
+    def read_back():
+        d = y.get_data()
+        st = d.strand.tolist() if exp_stranded else [None] * len(d)
+        return [(c, s, e, t) for (c, s, e), t in zip(ivs(y), st)]
+    got = col.guarded(read_back, HIST + name + ":read-back", case)
+    if got is None:
+        return None
+    if exp is None:      # sorted
+        keys = [(order[c], s) for c, s, e, _ in got]
+        ok = keys == sorted(keys) and sorted(got) == sorted(rws)
+        if not col.check(ok, HIST + "sorted:not-genome-order-or-rows-changed", case, "path %r rows %r got %r" % (path, rws, got)):
+            return None
+        exp = got
+    elif not col.check(got == exp, HIST + name + ":wrong-rows", case, "path %r rows %r got %r expected %r" % (path, rws, got, exp)):
+        return None
+
+    # 2. a stranded table stays a stranded table (merged() yields strand-less rows)
+    col.case({"o": "stranded", **descr}, contract="history: strandedness after " + name)
+    flag = col.guarded(lambda: bool(y.is_stranded()), HIST + name + ":is_stranded", case)
+    if flag is None:
+        return None
+    if flag != exp_stranded:
+        def consequence():
+            loc = y.get_location("start")
+            return np.asarray(loc.position).tolist()
+        try:
+            seen = consequence()
+        except Exception as e:
+            seen = "%s: %s" % (type(e).__name__, e)
+        want = [R.location((s, e), st if exp_stranded else None, "start")[0] for c, s, e, st in exp]
+        col.fail(HIST + name + (":result-not-stranded" if exp_stranded else ":result-stranded"), case,
+                 "path %r: the result of %s on stranded intervals has is_stranded()=%r; rows %r; e.g. get_location('start') on it gives %r, "
+                 "the strand-aware step on these rows gives %r" % (path, name, flag, exp, seen, want))
+        return None
+
+    # 3. strand-aware steps on the result == the same steps on the rows by hand
+    ok = True
+    if exp_stranded:
+        for where in ("start", "stop"):
+            col.case({"o": "location:" + where, **descr}, contract="history: get_location after " + name)
+            sig = HIST + name + ":get_location:" + where
+            got = col.guarded(lambda: (lambda loc: list(zip(names(loc.chromosome), np.asarray(loc.position).tolist())))(y.get_location(where)), sig, case)
+            if got is None:
+                ok = False
+                continue
+            want = [(c, R.location((s, e), st, where)[0]) for c, s, e, st in exp]
+            ok &= col.check(got == want, sig + ":not-strand-aware-position-of-the-rows", case, "path %r rows %r got %r expected %r" % (path, exp, got, want))
+    inb = all(0 <= s < e <= sizes[c] for c, s, e, _ in exp)
+    if inb and ga is not None:
+        col.case({"o": "array", **descr}, contract="history: GenomicArray[result] after " + name)
+        sig = HIST + name + ":GenomicArray[intervals]"
+        got = col.guarded(lambda: rows(ga[y]), sig, case)
+        if got is None:
+            ok = False
+        else:
+            want = [values[c][s:e][::-1] if st == "-" else values[c][s:e] for c, s, e, st in exp]
+            ok &= col.check(got == want, sig + ":not-values-of-the-rows-reversed-on-minus", case, "path %r rows %r got %r expected %r" % (path, exp, got, want))
+    if inb and sq is not None:
+        q = seq_q([r[:3] for r in exp]) if exp_stranded else ""
+        col.case({"o": "sequence", **descr}, contract="history: GenomicSequence[result] after " + name)
+        # all rows of length 1 / no rows: the known class of the 'sets' group (same call, same signature)
+        sig = ("GenomicSequence[intervals]:stranded" + q) if q else HIST + name + ":GenomicSequence[intervals]"
+        got = col.guarded(lambda: [str(v).upper() for v in sq[y].tolist()], sig, case)
+        if got is None:
+            ok = ok and bool(q)
+        else:
+            want = [R.revcomp(seqs[c][s:e]) if st == "-" else seqs[c][s:e] for c, s, e, st in exp]
+            ok &= col.check(got == want, HIST + name + ":GenomicSequence[intervals]:not-sequence-of-the-rows-revcomp-on-minus", case,
+                            "path %r rows %r got %r expected %r" % (path, exp, got, want))
+    if not ok:
+        return None
+    return (y, exp, exp_stranded)
+
+
+def chk_hist(col, case):
+    from bionumpy.genomic_data import GenomicSequence
+    genome, filt, inc, genome_inc, sizes = parse(case)
+    order = {n: i for i, n in enumerate(inc)}
+    dl, dr = case.get("shift", (0, 0))
+    entries = [(c, int(s) - dl, int(e) + dr) for c, s, e in case["entries"]]
+    strands = case["strands"]
+    rws = [(c, s, e, st) for (c, s, e), st in zip(entries, strands) if c in inc]
+    g = col.guarded(lambda: make_genome(genome, filt, case), "Genome.from_dict", case)
+    if g is None or not rws:
+        return
+    ctx = g.get_genome_context()
+    values = vals_of("distinct", genome_inc)
+    seqs = {n: seq_of(i, s) for i, (n, s) in enumerate(genome)}
+    ga = col.guarded(lambda: make_array(genome_inc, values, ctx), "GenomicArray.from_dict", case)
+    sq = col.guarded(lambda: GenomicSequence.from_dict(seqs), "GenomicSequence.from_dict", case)
+    gs = col.guarded(lambda: g.get_intervals(make_intervals(entries, strands), stranded=True), "get_intervals:stranded", case)
+    if gs is None:
+        return
+    env = (sizes, order, values, seqs, ga, sq, genome_inc)
+    s0 = (gs, rws, True)
+    for first in case["first"]:
+        s1 = hist_step(col, case, env, s0, first, [])
+        if s1 is None:
+            continue
+        for second in case["second"]:
+            hist_step(col, case, env, s1, second, [first])
+
+
 GROUPS = {"offset": chk_offset, "sets": chk_sets, "elem": chk_elem, "loc": chk_loc, "array": chk_array,
-          "spill": chk_spill, "fasta": chk_fasta}
+          "spill": chk_spill, "fasta": chk_fasta, "many": chk_many, "hist": chk_hist}
 
 
 # ----------------------------------------------------------------------------------------------- enumeration
@@ -879,6 +1420,97 @@ def genomes_multi(S, tier):
 def small_menu(s):
     m = [[], [(0, s)], [(0, 1), (s - 1, s)]] if s > 1 else [[], [(0, 1)]]
     return m
+
+
+
+def many_cases(tier):
+    """> 256 contigs (quick: 257, 300, 520; '_' names every 64th, ignored or kept), > 65536 for the coordinate conversion;
+    entries (first base, last base, whole contig; both strands) on the contigs around every multiple of 256 / 65536,
+    alone, together with the contig 256 / 65536 places before, and all at once"""
+    thorough = tier == "thorough"
+    rule = [2, 7, 5]                 # sizes 2..6; contigs k, k-256 and k-65536 always have different sizes
+    configs = [(257, 0, "keep"), (300, 0, "keep"), (520, 0, "keep"), (300, 64, "ign"), (300, 64, "keep")]
+    if thorough:
+        configs += [(256, 0, "keep"), (258, 0, "keep"), (777, 0, "keep"), (1030, 0, "keep"), (520, 100, "ign"), (600, 3, "ign")]
+    big = [65600] + ([65537, 70000, 131100] if thorough else [])
+
+    def trio(i, j, size):
+        a, b = ("+", "-") if j % 2 == 0 else ("-", "+")
+        return [[i, 0, size, b], [i, size - 1, size, a], [i, 0, 1, b]]
+
+    for n, ue, filt in configs + [(n, 0, "keep") for n in big]:
+        base = {"k": "many", "n": n, "prefix": "scf", "size_rule": rule, "underscore_every": ue, "filter": filt}
+        if n > 60000:
+            base["level"] = "offset"
+        size = lambda i: rule[0] + (i * rule[1]) % rule[2]
+        ignored = lambda i: filt == "ign" and ue and i % ue == ue - 1
+        included = [i for i in range(n) if not ignored(i)]
+        marks = set()
+        for m in range(256, len(included) + 1, 256):
+            if m > 1024 and m % 65536 and (m - 256) % 65536:
+                continue
+            for j in (m - 2, m - 1, m, m + 1):
+                if 0 <= j < len(included):
+                    marks.add(included[j])         # contig number j in the order of the genome context
+        for i in (0, 1, n - 2, n - 1) + ((255, 256) if ue else ()):
+            if 0 <= i < n:
+                marks.add(i)
+        high = sorted(i for i in marks if i >= 254)
+        pos = {i: j for j, i in enumerate(included)}
+        partners = set()
+        for i in high:
+            for d in (256, 65536):
+                if i in pos and pos[i] - d >= 0:
+                    partners.add(included[pos[i] - d])
+        everything = sorted(marks | partners)
+        yield {**base, "picks": [p for j, i in enumerate(everything) for p in trio(i, j, size(i))], "whole": True}
+        if n > 60000:
+            continue                 # coordinate conversion only: element-wise, one case with all probes is enough
+        if thorough:
+            singles = sorted(set(high) | set(range(250, min(n, 262))))
+        else:       # the contigs number 255, 256, 512 and the last one (in the order of the genome context)
+            singles = [i for i in high if pos.get(i, i) in (255, 256, 512, len(included) - 1)]
+        for i in singles:
+            yield {**base, "picks": trio(i, 0, size(i))}
+            if i in pos:
+                for d in (256, 65536):
+                    if pos[i] - d >= 0:
+                        p = included[pos[i] - d]
+                        yield {**base, "picks": trio(p, 1, size(p)) + trio(i, 0, size(i))}
+                        if thorough:
+                            yield {**base, "picks": trio(i, 1, size(i)) + trio(p, 0, size(p))}
+
+
+def hist_cases(tier, S):
+    thorough = tier == "thorough"
+    core = [["sorted"], ["perm", "rev"], ["mask", "minus"], ["clip"], ["extend", 2], ["merged"], ["windows", 1]]
+    more = [["perm", "rot"], ["perm", "evenodd"], ["mask", "even"], ["mask", "odd"], ["slice"], ["concat"], ["extend", 1], ["extend", S + 1],
+            ["windows", 0]]
+    firsts = core + more
+    seconds = firsts if thorough else core
+    A = [("chr1", S), ("chr10", S)]
+    inputs = [(A, "keep", "all", (0, 0)), (A, "keep", "all", (1, 2)), (A, "keep", "noleft", (0, 0)),
+              ([("chr10", 2), ("chr1", 1), ("chr2", S)], "keep", "all", (0, 0)),
+              ([("chr1", 2), ("chr1_alt", 3), ("chr10", 1), ("chr2", 2)], "ign", "all", (0, 0)),
+              ([("chr1", 2), ("chr1_alt", 3), ("chr10", 1), ("chr2", 2)], "keep", "noleft", (0, 0))]
+    if thorough:
+        inputs += [([("chr1", S)], "keep", "all", (0, 0)),
+                   ([("chr10", S), ("chr1", 1), ("chr2", 2)], "keep", "noleft", (2, 1)),
+                   ([("chrUn_x", 2), ("chr2", 3), ("chr2_r", 1), ("chr21", 2)], "ign", "all", (0, 0)),
+                   ([("2", 1), ("21", 2), ("X", 3), ("212", 1)], "keep", "all", (0, 1))]
+    for gi_, (genome, filt, which, shift) in enumerate(inputs):
+        entries = [(n, a, b) for ci, (n, s) in enumerate(genome) for a, b in all_intervals(s)
+                   if which == "all" or ci == 0 or a > 0]
+        # not in genome order: even positions forwards, then odd positions backwards
+        k = len(entries)
+        entries = [entries[i] for i in list(range(0, k, 2)) + list(range(1, k, 2))[::-1]]
+        pats = strand_patterns(k, tier)
+        if not thorough and gi_ > 0:
+            pats = pats[gi_ % 2:][:1]
+        for st in pats:
+            for first in firsts:
+                yield {"k": "hist", "genome": genome, "filter": filt, "entries": entries, "strands": st, "shift": list(shift),
+                       "first": [first], "second": seconds}
 
 
 def gen_cases(tier):
@@ -1016,6 +1648,10 @@ def gen_cases(tier):
                 for entries in (every, bound, every[::-1]):
                     for st in strand_patterns(len(entries), tier):
                         yield {"k": "fasta", "genome": genome, "filter": filt, "entries": entries, "strands": st, "width": width, "source": source}
+
+    # --- more than 256 / 65536 sequence names; histories on stranded intervals followed by a strand-aware step
+    yield from many_cases(tier)
+    yield from hist_cases(tier, S)
 
 
 class Col(Collector):
